@@ -6,7 +6,7 @@ _real_scandir = os.scandir
 _real_listdir = os.listdir
 
 STATS = {"scandir_calls": 0, "scandir_nonidentity": 0, "evictions": 0, "memo_calls": 0,
-         "realpath_evictions": 0}
+         "realpath_evictions": 0, "pools": 0, "pool_tasks": 0, "pool_reorders": 0}
 
 
 def _order(names, key):
@@ -101,3 +101,116 @@ def install_realpath_eviction(points):
         return orig(self, path)
 
     finder.ParserState._get_realpath = _get_realpath
+
+
+def install_pool(key):
+    """Worker pools are simulated: tasks handed to a concurrent.futures executor run in this thread, one at a
+    time, and the ORDER in which they complete is decided by the schedule (`key`), never by the operating
+    system. The shipped code uses no pool; the seam exists so that a change that introduces one is explored
+    under different completion orders, repeatably."""
+    import concurrent.futures as cf
+    import sys
+
+    real = {"ThreadPoolExecutor": cf.ThreadPoolExecutor, "ProcessPoolExecutor": cf.ProcessPoolExecutor,
+            "as_completed": cf.as_completed, "wait": cf.wait}
+
+    def perm(fs):
+        order = sorted(fs, key=lambda f: hashlib.sha256(f"{key}/pool/{f._ordinal}".encode()).digest())
+        if len(fs) > 1 and order != list(fs):
+            STATS["pool_reorders"] += 1
+        return order
+
+    class SimFuture(cf.Future):
+        def __init__(self, fn, a, k, ordinal):
+            super().__init__()
+            self._sim = (fn, a, k)
+            self._ordinal = ordinal
+
+        def _sim_run(self):
+            if self._sim is None:
+                return
+            fn, a, k = self._sim
+            self._sim = None
+            if not self.set_running_or_notify_cancel():
+                return
+            try:
+                self.set_result(fn(*a, **k))
+            except BaseException as e:  # noqa
+                self.set_exception(e)
+
+        def result(self, timeout=None):
+            self._sim_run()
+            return super().result(0)
+
+        def exception(self, timeout=None):
+            self._sim_run()
+            return super().exception(0)
+
+    counter = [0]
+
+    class SimPool:
+        def __init__(self, *a, **k):
+            self._fs = []
+            STATS["pools"] += 1
+
+        def submit(self, fn, /, *a, **k):
+            f = SimFuture(fn, a, k, counter[0])
+            counter[0] += 1
+            self._fs.append(f)
+            STATS["pool_tasks"] += 1
+            return f
+
+        def map(self, fn, *iterables, timeout=None, chunksize=1):
+            fs = [self.submit(fn, *args) for args in zip(*iterables)]
+            for f in perm(fs):      # side effects happen in completion order, results come back in order
+                f._sim_run()
+            return (f.result() for f in fs)
+
+        def shutdown(self, wait=True, cancel_futures=False):
+            for f in perm([f for f in self._fs if f._sim is not None]):
+                if cancel_futures:
+                    f._sim = None
+                    f.cancel()
+                else:
+                    f._sim_run()
+
+        def __enter__(self):
+            return self
+
+        def __exit__(self, *a):
+            self.shutdown()
+            return False
+
+    def as_completed(fs, timeout=None):
+        fs = list(dict.fromkeys(fs))
+        if not all(isinstance(f, SimFuture) for f in fs):
+            return real["as_completed"](fs, timeout)
+
+        def gen():
+            for f in perm(sorted(fs, key=lambda f: f._ordinal)):
+                f._sim_run()
+                yield f
+
+        return gen()
+
+    def wait(fs, timeout=None, return_when=cf.ALL_COMPLETED):
+        fs = list(dict.fromkeys(fs))
+        if not all(isinstance(f, SimFuture) for f in fs):
+            return real["wait"](fs, timeout, return_when)
+        for f in perm(sorted(fs, key=lambda f: f._ordinal)):
+            f._sim_run()
+            if return_when != cf.ALL_COMPLETED:
+                break
+        return real["wait"](fs, 0, return_when)
+
+    sim = {"ThreadPoolExecutor": SimPool, "ProcessPoolExecutor": SimPool, "as_completed": as_completed, "wait": wait}
+    for name, obj in sim.items():
+        setattr(cf, name, obj)
+    # names already bound by `from concurrent.futures import ...` in modules of the system under test
+    for mname, mod in list(sys.modules.items()):
+        if mod is None or not (mname == "codebasin" or mname.startswith("codebasin.")):
+            continue
+        for attr, val in list(vars(mod).items()):
+            for name, obj in real.items():
+                if val is obj:
+                    setattr(mod, attr, sim[name])
